@@ -423,6 +423,8 @@ func c05HostileSQL() []string {
 		`CREATE TABLE t1 (` + strings.Repeat("c,", 300) + `z)`,
 		`CREATE TABLE t1 (a` + strings.Repeat(" CHECK((((((((a))))))))", 40) + `)`,
 		`CREATE TABLE t1 (a REFERENCES x(y) ON DELETE SET NULL ON UPDATE CASCADE DEFERRABLE INITIALLY DEFERRED, FOREIGN KEY (nosuch) REFERENCES z(q))`,
+		`CREATE TABLE t1 (s, b, PRIMARY KEY (ſ))`, `CREATE TABLE t1 (k, b, UNIQUE (K))`, `CREATE TABLE t1 (σ, b, PRIMARY KEY (ς)) WITHOUT ROWID`, `CREATE TABLE t1 (µ, PRIMARY KEY (μ))`,
+		`CREATE TABLE t1 (ß, ss, PRIMARY KEY (SS, ß))`, `CREATE TABLE t1 (i, İ, ı, I, PRIMARY KEY (İ, ı))`, `CREATE TABLE t1 (a, PRIMARY KEY (Å))`, `CREATE INDEX t1_part ON t1 (ſ, K)`,
 		`CREATE TABLE t1 (éa, b)`, "CREATE TABLE t1 (a, b\x00c)", "CREATE TABLE t1 (a\xff\xfe)", `CREATE TABLE t1 (a, "unterminated)`,
 		`CREATE INDEX t1_part ON t1 (nosuch)`, `CREATE INDEX t1_part ON other (c)`, `CREATE INDEX t1_part ON t1 (c, c, c, c, c, c, c, c)`,
 		`CREATE INDEX t1_part ON t1 (c + 1 COLLATE nosuch DESC)`, `CREATE INDEX t1_part ON t1 (a, b, c, d, e)`, `CREATE UNIQUE INDEX t1_part ON t1 (c) WHERE`,
